@@ -1088,8 +1088,12 @@ class Scheduler:
         last_op = sub_schedule_ops[-1]
         min_stripe_h = sub_schedule.cost_map[last_op].stripe.height + 1
 
+        # An Op that reads an upscaled IFM produces its OFM rows in groups of the upscaling factor
+        stripe_h_multiple = to_upscale(last_op.resampling_mode)
         possible_stripes = [
-            final_ofm_shape.with_height(stripe_h) for stripe_h in range(min_stripe_h, final_ofm_shape.height // 2 + 1)
+            final_ofm_shape.with_height(stripe_h)
+            for stripe_h in range(min_stripe_h, final_ofm_shape.height // 2 + 1)
+            if stripe_h % stripe_h_multiple == 0
         ]
         # Propose different striping
         best_schedule = None
